@@ -146,7 +146,9 @@ func (obj *Package) Use(pkg *Package) {
 			obj.vars = map[string]*VarVal{}
 		}
 		for name, vv := range pkg.vars {
-			if vv.Export {
+			// A name that is exported but not bound yet is only a placeholder
+			// in the used package. It becomes visible when it is bound.
+			if vv.Export && Unbound != vv.Val {
 				if xv := obj.vars[name]; xv != nil && xv.Pkg == obj && Unbound != xv.Val {
 					continue // the package's own variable is not replaced
 				}
@@ -247,7 +249,7 @@ func (obj *Package) Unuse(pkg *Package) {
 		}
 		for _, p := range obj.Uses {
 			for name, vv := range p.vars {
-				if _, has := vars[name]; !has && vv.Export && reachable(p, vv.Pkg) {
+				if _, has := vars[name]; !has && vv.Export && Unbound != vv.Val && reachable(p, vv.Pkg) {
 					vars[name] = vv
 				}
 			}
@@ -538,6 +540,9 @@ func (obj *Package) Export(name string) {
 		if vv := obj.vars[name]; vv != nil {
 			vv.Export = true
 			for _, u := range obj.Users {
+				if Unbound == vv.Val {
+					break // not bound yet, nothing to see
+				}
 				u.mu.Lock()
 				if xv := u.vars[name]; xv == nil || Unbound == xv.Val {
 					u.vars[name] = vv
